@@ -10,7 +10,9 @@ Oracle on the real code, independent of the Lean model:
     over the 29 whitespace code points);  OpenMetrics iff some token IS `application/openmetrics-text`;  gzip iff some token
     equals `gzip` up to ASCII case and compression is enabled
   * expected restriction = the non-blank values of `name[]` known from the structure the query string was generated from
-    (own percent-decoder for the malformed stream)
+    (own percent-decoder for the malformed stream); the expected restricted BODY is computed without the library's restriction
+    code: one full collect, own filter "sample name in the set" (families left empty dropped, name/help/type/unit kept), a
+    fresh registry, the format's encoder; compared up to the order of family blocks
   * every GET: 200, Content-Type of the expected format, Content-Encoding: gzip iff expected, body (after gzip.decompress
     iff the header is present) == that format's generate_latest of the (restricted) registry, collected
   * the three front-ends agree (WSGI/ASGI also with compression disabled)
@@ -972,7 +974,9 @@ def run(ctx):
     ctx.extra['scope_notes'] = [
         'repeated Accept / Accept-Encoding field lines are out of scope of the agreement oracle (MetricsHandler reads the first line only)',
         'GET /favicon.ico on WSGI (200, empty body) is compared with the model only',
-        'blank name[] values do not count; media types compared case-sensitively, codings case-insensitively']
+        'blank name[] values do not count; media types compared case-sensitively, codings case-insensitively',
+        'the expected restricted body is computed without the library restriction code (own sample-name filter over one full collect, '
+        'fresh registry, format encoder) and compared up to the order of family blocks (a restricted registry iterates a Python set)']
 
 
 def replay(ctx, case):
